@@ -804,7 +804,7 @@ def _strip_field_attrs(ftoks):
 
 
 def _parse_label(raw):
-    m = re.search(r"//\s*#([A-Za-z0-9_\-\.]+)((?:\s+C\d+)*)\s*$", raw)
+    m = re.search(r"//\s*#([A-Za-z0-9_\-\.]+)((?:\s+C\d+)*)(?:\s.*)?$", raw)
     if not m:
         return "", ()
     return m.group(1), tuple(m.group(2).split())
